@@ -8,6 +8,9 @@ def judge(path):
     c = out["c"]
     with open(path, errors="replace") as fh:
         for line in fh:
+            if line.startswith('["OKPLZ"'):
+                out["c"]["okp_keys_with_leading_zero_octet"] = out["c"].get("okp_keys_with_leading_zero_octet", 0) + json.loads(line)[1]
+                continue
             if not line.startswith('["I"'):
                 continue
             try:
